@@ -981,6 +981,14 @@ func (g *FnGen) nameSites() {
 	// an at-call assertion that names no call site of this function can never be checked: that is
 	// contract drift (the function is undecided), not a silently dropped clause.
 	if g.parent == nil && g.C != nil {
+		// "calls X" on a function that has no call site of X at all is drift too (the entry is
+		// assembled some other way now: undecided), whereas a path that skips an existing call site
+		// is a violation
+		for _, c := range g.C.MustCall {
+			if counts["call:"+c] == 0 {
+				efail("calls %s: %s has no such call site (contract drift)", c, g.name)
+			}
+		}
 		for _, cs := range g.C.Calls {
 			n := counts["call:"+cs.Callee]
 			if cs.Callee == "mapupdate" {
